@@ -18,7 +18,9 @@ RULE = ("ints: 0, +-(10^k-2..10^k+2) for k=0..18, int64 extremes, every permutat
         "through a DelimitedBuffer (fixed-width digit matrix; widest entry 10/19/20 characters, values around 2^31..10^10, signed "
         "columns), optional columns with missing values, integer matrices through matrix_dump, integer/float/List[int] columns "
         "written and parsed through a delimited buffer; every function also on fresh views (reordered / masked / sliced / stepped / "
-        "reversed selections of a larger array, ragged array or table, also chained) and on every integer dtype. Non-trivial = |n| within 2 "
+        "reversed selections of a larger array, ragged array or table, also chained) and on every integer dtype; int_to_str, empty "
+        "batches, join/split (several separators), bool / List[bool] / Optional[int] / Optional[float] columns, float matrices "
+        "with row names, missing floats, and texts that are not numbers (lone sign, lone dot, two dots) which must be reported. Non-trivial = |n| within 2 "
         "of a power of ten, an int64 extreme, a sign, or a batch with >= 2 widths (ints); >= 2 rows or an exponent or >= 16 "
         "digits (floats)")
 EXHAUSTIVE = {"quick": False, "thorough": False}
@@ -46,7 +48,9 @@ MANIFEST = {
             "digit_matrix + column_ints (the right-aligned zero-filled digit matrix used for integer columns of files, any mix of "
             "widths), parse_missing (optional columns), float_logic_partial / float_logic_sci_partial / float_logic_spec_partial "
             "(for every text of the numeral grammar [+-]I[.F][e[+-]X] the float parser's validity check, sign/dot handling, digit "
-            "placement and exponent denote exactly the numeral's value), plus refutations of the rule shipped before the repair "
+            "placement and exponent denote exactly the numeral's value), format_wide / int_to_str_spec (all magnitudes < 10^20), "
+            "canonical_unique, parse_int_some_iff (succeeds exactly on the grammar), join_split + split_pieces + splitBy_spec, "
+            "digit_lists (List[bool] writer), wrap64_spec, cumsum_get, plus refutations of the rule shipped before the repair "
             "(10^15-1 -> '0999999999999999', -2^63 -> '-2'). Correspondence of the real strops functions (and int/float/List[int] "
             "columns through a delimited buffer) with the Lean model, the Lean spec and an independent Python oracle; float "
             "rounding by ulp distance (<= 4) to Python float(text); repr round trip compared bit-exactly.",
